@@ -666,8 +666,20 @@ func (w *c03lWorld) afterADD(uid string, baseline int) {
 		}
 		return false
 	}
+	// Giving up early: if the record is still pending although no goroutine beyond the
+	// process's idle set exists any more, the allocator's goroutine has come and gone
+	// without withdrawing it (a tree that does not withdraw). The idle set is the
+	// smallest goroutine count ever seen in this process at any poll or step start - a
+	// reading can only be too high (a goroutine on its way out), never too low - and the
+	// count must stay there for a run of polls.
+	calm := 0
 	for n := 0; pending(); n++ {
-		if n >= 20000 {
+		if c03lSeeGoroutines() {
+			calm++
+		} else {
+			calm = 0
+		}
+		if n >= 20000 || calm >= 40 {
 			w.c.Label("add:pending-record-not-withdrawn")
 			break
 		}
@@ -679,6 +691,18 @@ func (w *c03lWorld) afterADD(uid string, baseline int) {
 		goruntime.Gosched()
 		time.Sleep(20 * time.Microsecond)
 	}
+}
+
+var c03lIdleGoroutines = 1 << 30
+
+// c03lSeeGoroutines records the current goroutine count and reports whether it is at
+// the smallest count ever seen (the idle set of the process).
+func c03lSeeGoroutines() bool {
+	n := goruntime.NumGoroutine()
+	if n < c03lIdleGoroutines {
+		c03lIdleGoroutines = n
+	}
+	return n <= c03lIdleGoroutines
 }
 
 // sandboxUp: the runtime has a sandbox of that pod uid up (ADD succeeded, no DEL since).
@@ -1450,6 +1474,7 @@ func c03lRun(c *vt.Ctx, s c03lScenario) {
 			before = w.runtimeObj()
 		}
 		w.step = i
+		c03lSeeGoroutines()
 		goroutines := goruntime.NumGoroutine()
 		switch op.K {
 		case "create":
